@@ -4,6 +4,8 @@ package app
 
 import (
 	"fmt"
+	"io"
+	"net/http"
 	"time"
 )
 
@@ -52,4 +54,79 @@ func vC20(k int) {
 	vAssert("C20.endtime", end.UnixMilli() == int64(resetT+itvlMS))
 	vAssert("C20.lock-released-end", !vHeld(&il.mux))
 	vReach("C20.end")
+}
+
+// ---- the two places that use the limiter on the serving path: the /reqcount handler and the middleware ----
+// Run with the guarded-field discipline on: any read or write of Counters/ResetTime outside mux is reported.
+
+func init() {
+	vHarnesses["vH_C20_handlers"] = vH_C20_handlers
+}
+
+type vRW struct {
+	hdr    http.Header
+	status int
+	wrote  int
+}
+
+func (w *vRW) Header() http.Header         { return w.hdr }
+func (w *vRW) Write(b []byte) (int, error) { w.wrote++; return len(b), nil }
+func (w *vRW) WriteHeader(s int)           { w.status = s }
+
+func vStubHeaderGet(h http.Header, key string) string {
+	v := h[key]
+	if len(v) == 0 {
+		return ""
+	}
+	return v[0]
+}
+
+func vStubHeaderSet(h http.Header, key, val string) { h[key] = []string{val} }
+
+func vStubWriteString(w io.Writer, s string) (int, error) { return w.Write(nil) }
+
+func vStubTimeFormat(t time.Time, layout string) string { return layout }
+
+var vNowMS int
+
+func vStubNow() time.Time { return time.UnixMilli(int64(vNowMS)) }
+
+type vNext struct{ served int }
+
+func (n *vNext) ServeHTTP(w http.ResponseWriter, r *http.Request) { n.served++ }
+
+func vH_C20_handlers() {
+	maxReq := vInt("max", 0, 3)
+	itvlMS := vInt("itvlMS", 1, 3600000)
+	t0 := vInt("t0", 0, 1<<40)
+	il, err := NewIPRequestLimiter(maxReq, time.Duration(itvlMS)*time.Millisecond, time.UnixMilli(int64(t0)), "", "")
+	vAssert("C20.handlers.new-ok", err == nil)
+	s := &Server{reqLimiter: il}
+	next := &vNext{}
+	mw := NewLimiterMiddleware("Livesim2-Requests", il)(next)
+	served := 0
+	for i := 0; i < 3; i++ {
+		ip := vAtom(fmt.Sprintf("ip%d", i), 2)
+		r := &http.Request{Header: http.Header{"X-Forwarded-For": []string{ip}}}
+		w := &vRW{hdr: http.Header{}}
+		if vBool(fmt.Sprintf("count%d", i)) {
+			s.reqCountHandlerFunc(w, r)
+			vAssert("C20.handlers.reqcount-answers", w.wrote == 1)
+		} else {
+			vNowMS = t0 + vInt(fmt.Sprintf("dt%d", i), 0, 1<<32)
+			before := next.served
+			mw.ServeHTTP(w, r)
+			// either passed on or refused with 429, never both
+			passed := next.served == before+1
+			vAssert("C20.handlers.pass-or-429", passed != (w.status == http.StatusTooManyRequests))
+			if passed {
+				served++
+			}
+		}
+		vAssert("C20.handlers.lock-released", !vHeld(&il.mux))
+	}
+	if maxReq == 0 {
+		vAssert("C20.handlers.zero-quota-serves-nothing", served == 0)
+	}
+	vReach("C20.handlers.end")
 }
